@@ -69,15 +69,17 @@ def block(repo: Repo) -> List[Ob]:
                         addressed.add(t)
                 if isinstance(v, ast.Call) and isinstance(v.func, ast.Name) and v.func.id in ("list", "tuple") and v.args and isinstance(v.args[0], ast.Name) and v.args[0].id in addressed:
                     addressed.add(t)
+        k_sel = 0
         for n in assigns:
             t, v = n.targets[0].id, n.value
             if isinstance(v, ast.ListComp):
                 r = _selection_ok(v, addressed)
                 if r is not None:
                     n_sel += 1
+                    k_sel += 1
                     selected_lists[t] = r
-                    (obs.append(ok("BLOCK", fi, f"selection:{t}", props, n, "product spaces are selected by membership of an addressed subsystem")) if r == "" else
-                     obs.append(bad("BLOCK", fi, f"selection:{t}", props, n, f"{r}: bystander product spaces would be merged/written")))
+                    (obs.append(ok("BLOCK", fi, f"selection#{k_sel}", props, n, "product spaces are selected by membership of an addressed subsystem")) if r == "" else
+                     obs.append(bad("BLOCK", fi, f"selection#{k_sel}", props, n, f"{r}: bystander product spaces would be merged/written")))
         # (a) arguments of self.combine(*A)
         k = 0
         for n in walk_no_nested(fn):
@@ -114,7 +116,8 @@ def block(repo: Repo) -> List[Ob]:
                 writes = [m for b in loop.body for m in [b] + list(walk_no_nested(b))
                           if (isinstance(m, ast.Attribute) and isinstance(m.ctx, ast.Store) and m.attr in ("state", "state_objs", "expansion_level"))
                           or (method_call(m) and method_call(m)[1] in ("expand", "contract", "measure", "measure_POVM", "apply_operation", "apply_kraus", "reorder", "resize_fock", "combine"))]
-                key = f"loop-over-all-spaces:{src(loop.target)}"
+                n_loops_all = locals().get("n_loops_all", 0) + 1
+                key = f"loop-over-all-spaces#{n_loops_all}"
                 (obs.append(bad("BLOCK", fi, key, props, loop, "a loop over *all* product spaces writes/acts on each of them: bystander blocks are modified")) if writes else
                  obs.append(ok("BLOCK", fi, key, props, loop, "loop over all product spaces only inspects them")))
         # (d) single-target short cut
